@@ -32,11 +32,11 @@ MANIFEST = dict(
          "composed pipeline model — Syntax lexer/parser -> Dim type checker -> VM compiler/machine; scalars are exact "
          "rationals (decimal, hex, octal and binary literals; an operation whose f64 result would not be that exact rational, or "
          "whose decimal rendering needs more than 6 significant digits, is out of the fragment), booleans, strings with "
-         "interpolation, lists, generic/recursive functions, `x -> f` and `x |> f(..)` calls, about 25 foreign primitives "
-         "(lists, strings, rounding, abs/mod, error); no units, no irrational or transcendental results, no NaN/inf, structs, "
+         "interpolation, lists, generic/recursive functions, `x -> f` and `x |> f(..)` calls, about 30 foreign primitives "
+         "(lists, strings, rounding, abs/mod, error, parse of plain numbers, log2/log10 of exact powers); no units, no irrational or transcendental results, no NaN/inf, structs, "
          "function values, format specifiers, dates — the model parses, type-checks, compiles and runs library and snippet, "
          "and every one of them yields a value; that value is compared with the implementation's output. The share of "
-         "snippets inside the fragment is measured on every run and written to the evidence (currently 65 of 177 = 36.7 %; "
+         "snippets inside the fragment is measured on every run and written to the evidence (currently 69 of 177 = 39.0 %; "
          "the others use units, dates, function values or inexact floats); the rest is executed on the implementation only.",
     design_ref="design/dim.md (phase 5); properties.jsonl C24",
     note="Trusted: Coq kernel + vm_compute; the three hand-written models and the glue translations "
